@@ -2024,10 +2024,10 @@ def replay(d):
         fs = judge_readseq_spec(m['spec'])
     elif op == 'history':
         fs = history_experiments(m['spec'], m['name'], 10**6, common.make_rng(PID, 0, 'replay'))[0]
-    elif op in ('failure', 'alias', 'concat-alias', 'reader-failure'):
+    elif op in ('failure', 'alias', 'concat-alias', 'reader-failure', 'complex'):
         import c15_r2
         fs = c15_r2.r2_replay(m)
-    elif op in ('objhist', 'seedrows'):
+    elif op in ('objhist', 'seedrows', 'shiftsrc'):
         import c15_r2
         fs = c15_r2.R2_JUDGES[op](c)
     else:
